@@ -1,10 +1,12 @@
 import Amgcl.Model.SolverCommon
 /-!
-# `amgcl::solver::bicgstab::operator()(A, P, rhs, x)` — solver/bicgstab.hpp:161-244, statement by statement
+# `amgcl::solver::bicgstab::operator()(A, P, rhs, x)` — solver/bicgstab.hpp:158-247, statement by statement
 
 Both preconditioning sides.  The carried vector `r` is `f − A x` (right) resp. `P(f − A x)` (left) and is updated
 recursively; the loop has two exits per iteration (after the `alpha` half step when `norm(s) ≤ eps`, and after
 the full step).  Two `precondition`s can throw: `rho2 ≠ 0` (not in the first pass) and `omega ≠ 0`.
+With `check_after` the loop is entered with the placeholder `res = 2·eps`; after the loop
+`if (prm.check_after && iter == 0) res = norm(*r);` replaces it by the actual residual when no pass was made.
 -/
 namespace Amgcl.Solver.BiCGStab
 open Amgcl Amgcl.Solver
@@ -142,7 +144,11 @@ def run (prm : Params K) (ip : Vec K → Vec K → K) (sqrt : K → K) (eps : K)
   | .go normRhs =>
     let epsT := maxK (normRhs * prm.tol) prm.abstol       -- eps = std::max(norm_rhs * prm.tol, prm.abstol);
     match loop prm.pside ip sqrt A P epsT prm.maxiter (init prm ip sqrt A P ws f x0 epsT) with
-    | (none, st)   => (.ok (st.iter, st.res / normRhs), st.x, st.w)   -- return (iter, res / norm_rhs);
+    | (none, st)   =>
+      -- if (prm.check_after && iter == 0) res = norm(*r);   (bicgstab.hpp:242-244: the placeholder `2*eps` the
+      -- loop was entered with is replaced by the actual residual when no pass was made)
+      let res := if prm.checkAfter && st.iter == 0 then nrm ip sqrt st.w.r else st.res
+      (.ok (st.iter, res / normRhs), st.x, st.w)                      -- return (iter, res / norm_rhs);
     | (some e, st) => (.error e, st.x, st.w)
 
 def solve (prm : Params K) (ip : Vec K → Vec K → K) (sqrt : K → K) (eps : K) (A : CRS K) (P : Vec K → Vec K)
